@@ -277,7 +277,7 @@ def translate(fn, src_lines):
     sigs = "; ".join(f"({dt}, {rank})" for dt, rank in sig)
     text = (f"(* {fn.name}({', '.join(p.arg for p in a.args)})   numba signature {d.args[0].value!r}\n"
             f"   scalars: {sc}\n   arrays: {ar} *)\n"
-            f"Definition {fn.name} : kernel :=\n  mkKernel [{sigs}]\n  {body}\n  [{'; '.join(str(r) for r in tr.ret)}].\n")
+            f"Definition {fn.name} : kernel :=\n  mkKernel [{sigs}] {len(tr.sc)} {len(tr.ar)}\n  {body}\n  [{'; '.join(str(r) for r in tr.ret)}].\n")
     return text
 
 
